@@ -291,13 +291,14 @@ PROXY_A, PROXY_B = "http://proxy-a.example:3128", "http://proxy-b.example:3129"
 
 
 class HopPeer:
-    """Origin (or proxy, then origin) of one hop of a redirect chain: hop k < last answers 302 with the next URL, the last one 101."""
+    """One transport of a redirect chain: if it was opened to a proxy it answers the CONNECT first; every upgrade request arriving on it
+    (a client may re-use the connection for a later hop to the same origin) is answered according to the chain's request counter:
+    request k < last gets a 302 to the next URL, the last one a 101."""
 
-    def __init__(self, is_proxy, location):
-        self.is_proxy, self.location = is_proxy, location
+    def __init__(self, chain, is_proxy, sock):
+        self.chain, self.is_proxy, self.sock = chain, is_proxy, sock
         self.connect_line = None
         self.mark = 0 if not is_proxy else None
-        self.done = False
 
     def on_send(self, sock, data):
         w = bytes(sock.written)
@@ -308,22 +309,35 @@ class HopPeer:
                 sock.stream += b"HTTP/1.1 200 Connection established\r\n\r\n"
             return
         rest = w[self.mark:]
-        if not self.done and b"\r\n\r\n" in rest:
-            self.done = True
-            if self.location is not None:
-                sock.stream += b"HTTP/1.1 302 Found\r\nLocation: " + self.location.encode() + b"\r\nContent-Length: 0\r\n\r\n"
-            else:
-                sock.stream += HS.response_101(HS.parse_request(rest)["key"])
+        if b"\r\n\r\n" not in rest:
+            return
+        self.mark = len(w)
+        ch = self.chain
+        k = len(ch["requests"])
+        try:
+            req = HS.parse_request(rest)
+        except Exception:
+            req = None
+        ch["requests"].append({"sock": sock.idx, "address": sock.address, "connect_line": self.connect_line, "tls": sock.tls is not None,
+                               "host": (req["h"].get("host") or [None])[0] if req else None})
+        if req is None:
+            return
+        if k + 1 < len(ch["urls"]):
+            sock.stream += b"HTTP/1.1 302 Found\r\nLocation: " + ch["urls"][k + 1].encode() + b"\r\nContent-Length: 0\r\n\r\n"
+        else:
+            sock.stream += HS.response_101(req["key"])
 
 
 def redirect_case(urls, envd, popt):
-    """connect(urls[0]) is redirected along urls[1:]; every hop is routed by the rule of ITS OWN scheme and host."""
+    """connect(urls[0]) is redirected along urls[1:]; every hop is routed by the rule of ITS OWN scheme and host. Whether a hop to the origin
+    (scheme, host, port) of the previous hop re-uses that hop's connection or opens a new one is not specified."""
     from urllib.parse import urlparse
     lib.reset_globals()
     env.install_urandom("counter")
     net = simnet.Net()
     import socket as S
-    net.resolver = lambda host, port_: [(S.AF_INET, "198.51.100.%d" % (7 + len(host) % 50))]
+    ipof = lambda host: "198.51.100.%d" % (7 + len(host) % 50)
+    net.resolver = lambda host, port_: [(S.AF_INET, ipof(host))]
     hops = []
     exempt = [h.strip() for h in envd.get("no_proxy", "").split(",") if h.strip()]
     for u in urls:
@@ -337,17 +351,9 @@ def redirect_case(urls, envd, popt):
                 pe = envd.get("http_proxy" if pu.scheme == "ws" else "https_proxy")
                 if pe:
                     via = (urlparse(pe).hostname, urlparse(pe).port)
-        hops.append({"host": pu.hostname, "port": port, "via": via})
-    peers = []
-
-    def peer_for(n_, s, a):
-        k = len(peers)
-        nxt = urls[k + 1] if k + 1 < len(urls) else None
-        p = HopPeer(a[1] in (3128, 3129, 3130), nxt)
-        peers.append(p)
-        return p
-
-    net.peer_for = peer_for
+        hops.append({"scheme": pu.scheme, "host": pu.hostname, "port": port, "via": via})
+    chain = {"urls": urls, "requests": []}
+    net.peer_for = lambda n_, s, a: HopPeer(chain, a[1] in (3128, 3129, 3130), s)
     set_env(envd)
     opts = {"http_proxy_host": "proxy-o.example", "http_proxy_port": 3130} if popt else {}
     simnet.install(net)
@@ -367,20 +373,30 @@ def redirect_case(urls, envd, popt):
         if not isinstance(out, (lib.websocket.WebSocketException, OSError)):
             return (dict(sig, kind="unexpected-exception", exc=type(out).__name__), "%s: connect() raised %s: %s" % (label, type(out).__name__, out))
         return (dict(sig, kind="redirect-chain-failed"), "%s: connect() raised %r" % (label, out))
-    res = [(e[1], e[2]) for e in net.log if e[0] == "resolve"]
-    want = [h["via"] or (h["host"], h["port"]) for h in hops]
-    if res != want:
-        k = next((i for i, (a, b) in enumerate(zip(res, want)) if a != b), min(len(res), len(want)))
-        return (dict(sig, hop=k, via_proxy_wrongly=bool(k < len(res) and k < len(want) and hops[k]["via"] is None)),
-                "%s: hop %d went to %r, expected %r (all hops: %r, expected %r)" % (label, k + 1, res[k] if k < len(res) else None, want[k] if k < len(want) else None, res, want))
-    for k, (h, p) in enumerate(zip(hops, peers)):
+    reqs = chain["requests"]
+    if len(reqs) != len(hops):
+        return (dict(sig, kind="redirect-hop-count"), "%s: %d upgrade requests were sent for %d hops" % (label, len(reqs), len(hops)))
+    for k, (h, r) in enumerate(zip(hops, reqs)):
+        # where did the transport that carried this hop's request lead?
+        want_addr = (ipof(h["via"][0]), h["via"][1]) if h["via"] else (ipof(h["host"]), h["port"])
+        if tuple(r["address"][:2]) != want_addr:
+            return (dict(sig, hop=k, via_proxy_wrongly=h["via"] is None),
+                    "%s: the request of hop %d travelled on a transport to %r, expected %r (%s)" % (
+                        label, k + 1, r["address"], want_addr, "through %s:%d" % h["via"] if h["via"] else "directly to the origin"))
         if h["via"] is not None:
             wl = "CONNECT %s:%d HTTP/1.1" % (h["host"], h["port"])
-            if p.connect_line != wl:
-                return (dict(sig, kind="redirect-hop-connect-line", hop=k), "%s: hop %d tunnel request %r, expected %r" % (label, k + 1, p.connect_line, wl))
-        wrapped = [w for w in net.wraps if w["sock"] == k]
-        if bool(wrapped) != (urlparse(urls[k]).scheme == "wss"):
-            return (dict(sig, kind="redirect-hop-tls", hop=k), "%s: hop %d TLS wrap=%r" % (label, k + 1, bool(wrapped)))
+            if r["connect_line"] != wl:
+                return (dict(sig, kind="redirect-hop-connect-line", hop=k), "%s: hop %d tunnel request %r, expected %r" % (label, k + 1, r["connect_line"], wl))
+        if r["tls"] != (h["scheme"] == "wss"):
+            return (dict(sig, kind="redirect-hop-tls", hop=k), "%s: the request of hop %d travelled %s" % (label, k + 1, "inside TLS" if r["tls"] else "without TLS"))
+        if k > 0 and r["sock"] == reqs[k - 1]["sock"] and (h["scheme"], h["host"], h["port"], h["via"]) != tuple(hops[k - 1][x] for x in ("scheme", "host", "port", "via")):
+            return (dict(sig, kind="redirect-hop-reused-foreign-connection", hop=k), "%s: hop %d re-used the connection of hop %d, which leads to another origin" % (label, k + 1, k))
+    # every lookup names a host the rule allows for some hop
+    allowed = {(h["via"] or (h["host"], h["port"])) for h in hops}
+    res = [(e[1], e[2]) for e in net.log if e[0] == "resolve"]
+    stray = [x for x in res if x not in allowed]
+    if stray:
+        return (dict(sig, kind="redirect-stray-lookup"), "%s: lookups %r are not the target of any hop (%r)" % (label, stray, sorted(allowed)))
     return None
 
 
